@@ -172,8 +172,10 @@ def w_gauss(ctx, rng, i):
     ctx.check("gauss.metrics", ok, "gaussian DAC output has the wrong length or is not real for c=0")
     y = (np.real(x.signal) - bias) / Vout
     pk = int(np.argmax(y))
+    top = np.flatnonzero(y >= y[pk] * (1 - 1e-9))          # flat-topped (super-Gaussian) pulses: the peak is the middle of the plateau
+    pk_pos = float(top.mean())
     centre = pad * sps + sps / 2
-    ctx.check("gauss.metrics", abs(pk - centre) <= 1.0 + 1e-9, f"gaussian peak at sample {pk}, slot centre {centre} (more than one sample away)")
+    ctx.check("gauss.metrics", abs(pk_pos - centre) <= 1.0 + 1e-9 and top[-1] - top[0] + 1 == top.size, f"gaussian peak at sample {pk_pos}, slot centre {centre} (more than one sample away)")
     ctx.check("gauss.metrics", abs(y[pk] - 1) <= 0.05, f"gaussian peak reaches {y[pk]:.4f}*Vout (not within 5%)")
     w = fwhm(y, pk)
     ctx.check("gauss.metrics", np.isfinite(w) and abs(w - Tw) <= 1.0 + 1e-9, f"gaussian FWHM {w:.3f} samples, T={Tw} (more than one sample off)")
